@@ -9,8 +9,8 @@
 (* the concrete numbers of every case (BigNat arithmetic below), writes the *)
 (* cases as ndjson (IOEnv.CP_OUT) for the harness, and model-checks the      *)
 (* life cycle of every case on the code-shaped model: one behaviour          *)
-(* stub -> ready -> opened -> chained [-> pending -> chained2] -> done per   *)
-(* case; invariant C05.                                                      *)
+(* stub -> ready -> opened -> chained [-> pending [-> advanced] -> chained2] *)
+(* -> done per case; invariant C05.                                          *)
 (* A violation here is a HYPOTHESIS about the code (the model is code-       *)
 (* shaped), it becomes a finding only when ImplCommitPolicy reproduces it on *)
 (* the recorded behaviour of the real crates.                               *)
@@ -40,7 +40,9 @@ FW64(r)     == [t |-> "wrap64", a |-> r, d |-> 0]      \* fee * 1000 + 999 wraps
 FVT(k)      == [t |-> "vtop", a |-> Z, d |-> k]        \* channel value u64::MAX - k
 CA(v)       == [t |-> "abs", a |-> v, d |-> 0]
 CR(d)       == [t |-> "rel", a |-> Z, d |-> d]         \* height at the request + d
-HT(v, c)    == [v |-> v, c |-> c]
+HT(v, c)    == [v |-> v, c |-> c, h |-> -1]           \* payment hash: the one of its position (distinct)
+HTH(v, c, h) == [v |-> v, c |-> c, h |-> h]           \* payment hash number h of its direction
+SAME        == [t |-> "same", a |-> Z, d |-> 0]       \* (adv histories) the expiry it had in the first commitment
 
 AddI(a, d) == IF d >= 0 THEN Add(a, N(d)) ELSE Monus(a, N(-d))
 BigL(a)    == ToString(ToInt(a, -1))
@@ -54,7 +56,8 @@ ResAmt(sp, X, dust) ==
     [] OTHER -> Z
 ResCltv(sp, X) == IF sp.t = "abs" THEN sp.a ELSE N(X.chain.h0 + X.chain.blocks + sp.d)
 ResHtlcs(hs, X, dust) ==
-  [i \in 1..Len(hs) |-> [v |-> ResAmt(hs[i].v, X, dust), cltv |-> ResCltv(hs[i].c, X)]]
+  [i \in 1..Len(hs) |-> [v |-> ResAmt(hs[i].v, X, dust), cltv |-> ResCltv(hs[i].c, X),
+                          h |-> IF hs[i].h < 0 THEN i - 1 ELSE hs[i].h]]
 IsAbs(sp) == sp.t \in {"absorb", "absorb64"}
 
 INV125 == <<9781, 5546, 3362, 6035, 206>>                  \* 125^-1 mod 2^61
@@ -82,7 +85,9 @@ ASSUME LET f == Wrap64Fee(N(1000), 1124) IN
 (*  X = [pol, ctype, outbound, push_msat, hdelay, cdelay, value, chain,     *)
 (*       side, n]                                                           *)
 (*  D = [feerate, hv, cv, offh, rcvh, fee]  in HOLDER terms (hv to holder,  *)
-(*       offh offered by the holder)                                        *)
+(*       offh offered by the holder); an HTLC draft is HT(value, expiry)    *)
+(*       (its payment hash is the one of its position: all distinct) or     *)
+(*       HTH(value, expiry, h) (explicit hash number: parts of one payment) *)
 (***************************************************************************)
 V0    == N(3000000)
 PUSH0 == N(5000999)
@@ -405,7 +410,55 @@ AdvCtx == {Ctx(pol, ct, TRUE, PUSH0, V0, ChainOK, side, 2)
                ct \in (IF Thorough THEN CTypes ELSE {"static"}), side \in Sides}
 AdvCases == UNION {AdvCasesOf(X) : X \in AdvCtx}
 
-Cases0 == AdvCases \cup StdCases \cup InitCases \cup SizeCases \cup ChainCases \cup ExtCases \cup ManyCases \cup SeqCases
+\* two successive commitments and the EXPIRY RANGE: number 1 (HTLC with payment hash 0 of direction
+\* `who`, expiry e1, in range) is accepted and becomes current, the chain may move (a block more,
+\* the tip disconnected), then number 2 of the same side
+\*   "kept"   keeps an HTLC with that hash (expiry e2: unchanged, or another one),
+\*   "part"   keeps the HTLC and ADDS another part of the same payment (same hash, expiry e2),
+\*   "other"  keeps the HTLC and adds an HTLC with another hash (expiry e2) - the control,
+\* with e2 at every edge of the chain-state range [height + min_delay, height + max_delay] at the
+\* height of the SECOND request, of the absolute bound, and "unchanged" (e1 itself at the lower /
+\* upper edge / middle of the range of the first request, so that the moved chain alone pushes a
+\* carried-over HTLC out of the range).  The reference judges number 2 on its own contents at the
+\* height of its request: an HTLC is not excused because its hash is already in the current
+\* commitment.  Thorough adds the fee rate changing between the two and more policies / types.
+AdvChains2(X) == {X.chain, [X.chain EXCEPT !.blocks = @ + 1], [X.chain EXCEPT !.blocks = @ - 1]}
+AdvCltvVariants(X) ==
+  LET pol == X.pol IN
+     {[mode |-> m, e1 |-> RelOK(pol), e2 |-> e, ch2 |-> ch, fr2 |-> fr]
+        : m \in {"kept", "part", "other"},
+          e \in {CR(pol.min_delay - 1), CR(pol.min_delay), CR(pol.max_delay), CR(pol.max_delay + 1),
+                 CA(Z), CA(N(MAX_CLTV - 1)), CA(N(MAX_CLTV))},
+          ch \in (IF Thorough THEN AdvChains2(X) ELSE {X.chain, [X.chain EXCEPT !.blocks = @ + 1]}),
+          fr \in (IF Thorough THEN {N(1000), N(2000)} ELSE {N(1000)})}
+  \cup {[mode |-> m, e1 |-> d, e2 |-> SAME, ch2 |-> ch, fr2 |-> fr]
+        : m \in {"kept", "part", "other"}, d \in {pol.min_delay, RelOK(pol), pol.max_delay},
+          ch \in AdvChains2(X), fr \in (IF Thorough THEN {N(1000), N(2000)} ELSE {N(1000)})}
+AdvCltvCasesOf(X) ==
+  UNION { LET X2    == [X EXCEPT !.chain = v.ch2]
+              Abs1(d) == CA(N(X.chain.h0 + X.chain.blocks + d))     \* relative to the height of request 1
+              other == IF who = "offh" THEN "rcvh" ELSE "offh"
+              first == HTH(AI(20000), Abs1(v.e1), 0)
+              e2    == IF v.e2.t = "same" THEN Abs1(v.e1) ELSE v.e2
+              D1    == [BaseD(X) EXCEPT ![who] = << first >>, ![other] = << HTH(AI(30000), Abs1(RelOK(X.pol)), 0) >>]
+              D2    == [D1 EXCEPT !.feerate = v.fr2,
+                                  ![who] = CASE v.mode = "kept"  -> << HTH(AI(20000), e2, 0) >>
+                                             [] v.mode = "part"  -> << first, HTH(AI(21000), e2, 0) >>
+                                             [] v.mode = "other" -> << first, HTH(AI(21000), e2, 1) >>]
+              why   == who \o "," \o v.mode \o ",e1=h1+" \o ToString(v.e1) \o ",e2=" \o SpecL(v.e2)
+                         \o ",blocks " \o ToString(X.chain.blocks) \o "->" \o ToString(v.ch2.blocks)
+                         \o ",rate->" \o BigL(v.fr2) IN
+          UNION { { [c2 EXCEPT !.kind = "seq", !.chain = X.chain,
+                               !.seq = [on |-> TRUE, adv |-> TRUE, req1 |-> c1.req, chain2 |-> v.ch2]]
+                    : c2 \in Finish(X2, D2, "advcltv", why) }
+                  : c1 \in Finish(X, D1, "advcltv", "first") }
+          : v \in AdvCltvVariants(X), who \in {"offh", "rcvh"} }
+AdvCltvCtx == {Ctx(pol, ct, TRUE, PUSH0, V0, ChainOK, side, 2)
+                 : pol \in {PolUse} \cup (IF Thorough THEN {PolOnUse, BasePol, [PolUse EXCEPT !.max_htlcs = 2]} ELSE {}),
+                   ct \in (IF Thorough THEN CTypes ELSE {"static"}), side \in Sides}
+AdvCltvCases == UNION {AdvCltvCasesOf(X) : X \in AdvCltvCtx}
+
+Cases0 == AdvCases \cup AdvCltvCases \cup StdCases \cup InitCases \cup SizeCases \cup ChainCases \cup ExtCases \cup ManyCases \cup SeqCases
 
 (***************************************************************************)
 (* Filters: for one representative of every class (set of broken rules,     *)
